@@ -34,7 +34,8 @@ def verify_function(rel, qual, contract, hooks=None, registry=None, module_env=N
         return rep
     import copy
     c = copy.deepcopy({k: v for k, v in contract.items() if k not in ('hooks',)})
-    eng = E.Engine(node, c, prefix or rep.name, hooks=hooks, registry=registry, module_env=module_env)
+    from .vc.arrays import FullEngine
+    eng = FullEngine(node, c, prefix or rep.name, hooks=hooks, registry=registry, module_env=module_env)
     try:
         obs = eng.run()
     except E.Unsupported as e:
